@@ -101,7 +101,7 @@ class C05(Prop):
         return [(p[0], p[1]) if p[0] == 'ERR' else (p[0],) for p in parts if p[0] != 'ITEM']
 
     def oracle(self, tier, rng, suspicious):
-        results = R.run_cases(self.cases(tier, rng))
+        results = self.l1_results or R.run_cases(self.cases(tier, rng))
         failures, validated, points, samples = [], 0, 0, []
         accepted_cases = []
         for r in results:
